@@ -10,6 +10,7 @@ from .c01 import x_slices, accept_rule
 from ..affine import ge
 
 ID = "C02"
+ANCHORS = 'ersatz.shuffle,ersatz.dinucleotide_shuffle,ersatz._dinucleotide_shuffle,ersatz._fast_shuffle'.split(",")
 MIN_INSTANCES = 14
 EXPLANATION = (
     "REGION: in ersatz.shuffle the slice that is overwritten and the slice that is gathered from are the same linear forms "
